@@ -69,6 +69,13 @@ def gen_cases(rng, tier):
     m["pair"] = [[sp_, sp_, phi]]
     if i % 4:
       m["api_results"] = [None, "numpy0d", "numpy0d_int", "numpy0d_cached"][i % 4]
+    if i % 8 == 5:
+      # a pair potential with a negative region: an ordinary well, or a shallow one under a core twelve or more orders of
+      # magnitude larger ("rounding noise" relative to the table's largest value it is not)
+      phi = rng.choice([{"k": "form", "name": "morse", "p": [1.2, 2.0, spec.rfloat(rng, 0.1, 2.0)]},
+                        {"k": "sum", "a": [{"k": "form", "name": "bornmayer", "p": [rng.choice([1e14, 1e16, 1e18]), 0.1]}, {"k": "form", "name": "constant", "p": [-spec.rfloat(rng, 1e-4, 1e-2, 6)]}]},
+                        {"k": "sum", "a": [{"k": "form", "name": "bornmayer", "p": [1e15, 0.08]}, {"k": "form", "name": "morse", "p": [1.2, 2.0, 1e-3]}]}])
+      m["pair"] = [[sp_, sp_, phi]]
     cases.append({"kind": "funcfl", "route": "api_legacy", "model": m, "style": rng.randrange(1 << 30), "title": "title %d" % i})
   for i in range(n):
     kind = ["pair", "eam", "fs"][i % 3]
@@ -279,9 +286,14 @@ def run_funcfl(case, ctx, rng):
   try:
     if not ref.in_domain([R.F(dr * i) for i in ridx], [R.F(drho * i) for i in rhoidx]):
       raise R.RefDomainError("domain")
-    for i in range(nr):
-      if phi.value(R.F(dr * i)) < 0:
-        raise R.RefDomainError("phi < 0")
+    negative = False
+    for i in range(1, nr):      # (the row r = 0 holds sqrt(phi * 0) = 0 whatever phi(0) is)
+      v_ = phi.value(R.F(dr * i))
+      if v_ < 0:
+        if v_ < -mp.mpf("1e-6") * max(phi.mag(R.F(dr * i)), mp.mpf("1e-30")):
+          negative = True      # clearly negative (not a rounding residue of a sum that is zero)
+        else:
+          raise R.RefDomainError("phi < 0 by a rounding residue")
   except (R.RefDomainError, ZeroDivisionError, ValueError, OverflowError):
     ctx.count("out_of_domain")
     return
@@ -291,7 +303,16 @@ def run_funcfl(case, ctx, rng):
     ap.writeFuncFL(nrho, drho_f, nr, dr_f, eams, pots, out, case["title"])
     text = out.getvalue()
   except Exception as e:
+    if negative:
+      # the format stores sqrt(phi r / 27.2 / 0.529): a pair potential that is negative somewhere cannot be held, refusing is right
+      ctx.count("funcfl_negative_phi_refused")
+      ctx.cls("funcfl_negative_pair_potential")
+      ctx.nontrivial(True)
+      return
     return fail_exc(ctx, e)
+  if negative:
+    ctx.violation("funcfl_charge", "phi(r) is negative at some rows (the effective-charge column cannot hold that) but a funcfl file of %d bytes was written without complaint" % len(text), what="funcfl_charge", mech="negative_phi_written")
+    return
   ctx.count("funcfl_files")
   try:
     p = readers.read_funcfl(text)
